@@ -972,3 +972,9 @@ V("negative powers without the inverse", "C06", TRANS, "            return self.
 V("t**0 is t", "C06", TRANS, "        if power == 0:\n            if self.free_indices == 0:\n                return identity(self.dim)", "        if power == 0:\n            if self.free_indices == 0:\n                return self.copy()", "E19.act", "Tensor.__apply__")
 V("twin: negative powers through a local", "C06", TRANS, "            return self.inverse().__pow__(-power, modulo)", "            inverse = self.inverse()\n            return inverse.__pow__(-power, modulo)", "silent")
 V("power chain with the edge reversed keeps the product (twin)", "C06", "geometer/base.py", "            d.add_edge(cur, prev)", "            d.add_edge(prev, cur)", "silent")
+
+
+# ------------------------------------------------------------------------------------------------ a matrix divided by its own entry (E6.K11)
+V("from_points normalised by the corner entry", "C08", TRANS, "        return cls(t2.dot(np.linalg.inv(t1)))", "        t = t2.dot(np.linalg.inv(t1))\n        return cls(t / t[-1, -1], copy=False)", "E6.K11", "from_points", quick=True)
+V("twin: from_points scaled by a constant", "C08", TRANS, "        return cls(t2.dot(np.linalg.inv(t1)))", "        t = t2.dot(np.linalg.inv(t1))\n        return cls(t / 2, copy=False)", "silent")
+V("twin: from_points divided by the norm of the matrix", "C08", TRANS, "        return cls(t2.dot(np.linalg.inv(t1)))", "        t = t2.dot(np.linalg.inv(t1))\n        return cls(t / np.linalg.norm(t), copy=False)", "silent")
